@@ -220,6 +220,9 @@ def _last_clause(c, H0, H1, dem1, A1, target):
     x = z3.Const("gx", Z.Val)
     w = c.ctx.ghost.get("c15_last_spawned")
     nothing = z3.ForAll([x], z3.Implies(z3.Select(H1, x), z3.Select(H0, x)))
+    if getattr(c.ctx, "concrete", False):
+        # evaluation on a concrete run (replay): the statement itself - SOME new child is indispensable
+        return z3.Or(nothing, z3.Exists([x], z3.And(z3.Select(H1, x), z3.Not(z3.Select(H0, x)), A1 - R(dem1, x) < target.r)))
     if w is None:
         return nothing
     return z3.Or(nothing, z3.And(z3.Select(H1, w), z3.Not(z3.Select(H0, w)), Z.Val.id(w) >= c.ctx.alloc0, A1 - R(dem1, w) < target.r))
@@ -359,11 +362,18 @@ def _mk_mean(field):
             ctx = c.ctx
             filters = ctx.ghost.get("filters", [])
             unions = ctx.ghost.get("unions", [])
+            H, M = H_of(self), M_of(self)
+            sup, val = fld(c, "supply", c.new_heap), fld(c, field, c.new_heap)
+            if getattr(ctx, "concrete", False):
+                # evaluation on a concrete run (replay): the set of children with supply, written out
+                y = z3.Const("my", Z.Val)
+                F = z3.Lambda([y], z3.And(z3.Or(z3.Select(H, y), z3.Select(M, y)), R(sup, y) > 0))
+                mean = z3.If(scard(F) == 0, z3.RealVal(1), ssum(F, val) / z3.ToReal(scard(F)))
+                # concrete floats: the real-number idealisation is compared up to rounding (1e-9 relative)
+                return {"their-mean-or-one": z3.And(result.r - mean <= z3.RealVal("1/1000000000") * (1 + mean), mean - result.r <= z3.RealVal("1/1000000000") * (1 + mean))}
             if not filters:
                 return {"one-pass-over-the-children": False}
             F, U, cond, x = filters[-1]
-            H, M = H_of(self), M_of(self)
-            sup, val = fld(c, "supply", c.new_heap), fld(c, field, c.new_heap)
             ctx.assume(lemma_card_zero(F))
             y = z3.Const("my", Z.Val)
             return {"over-exactly-the-children-that-have-supply": z3.ForAll([y], z3.Select(F, y) == z3.And(z3.Or(z3.Select(H, y), z3.Select(M, y)), R(sup, y) > 0)),
@@ -486,3 +496,72 @@ def _sym_child(ctx, k):
 
 for _n in (0, 1, 3):
     contract(FAC + ":FactoryPool.__init__#children(%d)" % _n, props=["C15"])(_mk_init(_n))
+
+
+# ================================================================================ native inputs (replay / native search of refutations)
+def _gen_pool(rng, demand=None):
+    from pyvc.replay import stub_class
+
+    o = stub_class(Child)()
+    object.__setattr__(o, "supply", rng.choice([0, 1, 2, 3]))
+    object.__setattr__(o, "utilisation", rng.choice([0.125, 0.5, 1]))
+    object.__setattr__(o, "allocation", rng.choice([0.25, 0.5, 1]))
+    object.__setattr__(o, "demand", rng.choice([0, 1, 1, 2, 5, 5, 0.5]) if demand is None else demand)
+    o._stores.clear()
+    return o
+
+
+class _GenFactory:
+    """a factory handing out NEW stub pools with the given demands (then demand 1)"""
+
+    def __init__(self, rng):
+        self.rng = rng
+        self.__name__ = "factory"
+
+    def __call__(self):
+        from pyvc import replay
+
+        replay.LOG.append(("factory-call", self))
+        return _gen_pool(self.rng, self.rng.choice([1, 1, 2, 3, 0.5, 0]))
+
+    def __repr__(self):
+        return "<factory>"
+
+
+def _gen_factory_pool(rng):
+    import importlib
+
+    real = getattr(importlib.import_module(FAC), "FactoryPool")
+    o = object.__new__(real)
+    object.__setattr__(o, "_hatchery", {_gen_pool(rng) for _ in range(rng.choice([0, 1, 2, 3, 3, 4]))})
+    object.__setattr__(o, "_mortuary", {_gen_pool(rng, 0) for _ in range(rng.choice([0, 0, 1, 2]))})
+    object.__setattr__(o, "_demand", rng.choice([0, 1, 2, 3, 4.5, 7, 10]))
+    object.__setattr__(o, "factory", _GenFactory(rng))
+    object.__setattr__(o, "interval", 1)
+    return o
+
+
+def _gen_self_target(rng):
+    fp = _gen_factory_pool(rng)
+    total = sum(ch.demand for ch in fp._hatchery)
+    # targets around the current active demand: just below (shrinking by a little), at, and above it (growing)
+    return {"self": fp, "target": rng.choice([total - 1, total - 2, total - 3, total, total + 1, total + 2.5, 0, max(0, total - 0.5)])}
+
+
+def _gen_self(rng):
+    return {"self": _gen_factory_pool(rng)}
+
+
+def _gen_release(rng):
+    fp = _gen_factory_pool(rng)
+    kids = list(fp._hatchery)
+    return {"self": fp, "child": rng.choice(kids) if kids and rng.random() < 0.8 else _gen_pool(rng)}
+
+
+for _con, _g in ((grow, _gen_self_target), (shrink, _gen_self_target), (reap_children, _gen_self), (release_child, _gen_release), (supply_getter, _gen_self)):
+    _con.ns["gen_args"] = _g
+for _k in ("utilisation", "allocation"):
+    REG = __import__("pyvc.contracts", fromlist=["REGISTRY"]).REGISTRY
+    for _grp in REG.values():
+        if FAC + ":FactoryPool.%s.getter" % _k in _grp:
+            _grp[FAC + ":FactoryPool.%s.getter" % _k].ns["gen_args"] = _gen_self
